@@ -200,21 +200,25 @@ package index
 // ---------------------------------------------------------------------------
 
 //@ func index.fromSizedDeltas
+//@   flag int64=wrap
 //@   loop 1:
 //@     decreases len(data)
 //@   ensures true
 
 //@ func index.fromSizedDeltas16
+//@   flag int64=wrap
 //@   loop 1:
 //@     decreases len(data)
 //@   ensures true
 
 //@ func index.fromDeltas
+//@   flag int64=wrap
 //@   loop 1:
 //@     decreases len(data)
 //@   ensures true
 
 //@ func index.unmarshalDocSections
+//@   flag int64=wrap
 //@   loop 1:
 //@     decreases len(data)
 //@   ensures true
